@@ -884,6 +884,10 @@ package commitlog
 //@   call WriteMessageSet requires [prefix-rewritten-unchanged] arg0 == newSegment && arg1 == ms && len(arg2) == 1 && arg2[0] == e && int64(be64(ms, 0)) < offset
 //@   call Replace requires [replaces-the-segment-holding-the-offset] arg0 == newSegment && arg1 == seg
 //@   call ClearLatest requires [epochs-cut-at-the-offset] arg1 == offset
+// (a truncation cut short by the death of the process must leave a history that still covers every message present: a
+//  history that is AHEAD of the log is trimmed when the log is opened again, one that has forgotten the epochs of messages
+//  still there cannot be repaired - so the history is cut only when the messages are gone and the new segment list is in place)
+//@   call ClearLatest requires [C05:the-epoch-history-is-cut-only-after-the-messages-are-gone] ghost.cut
 //@   ensures [segments-below-kept] result == nil ==> (forall i int :: 0 <= i && i < old(len(l.segments)) && old(nextOf(l.segments[i])) <= offset ==> i < len(l.segments) && l.segments[i] == old(l.segments[i]))
 //@   ensures [active-is-last] result == nil && ghost.cut ==> len(l.segments) >= 1 && l.vActiveSegment == l.segments[len(l.segments)-1]
 
